@@ -27,6 +27,9 @@ func checkC19(c *Ctx, r *Report) {
 		r.funcs[fnID(ci.do)] = true
 		c19Client(c, r, ci, false)
 	}
+	// R19.5: the frame shown to BeforeParse is the concatenation of all chunks shown to
+	// AfterEachRead only if every Read's count is added to the total before the loop can exit
+	clientLoopItems(c, r, "R7.2", "R19.5", "the frame handed on is a copy of received[0:total]", "advances by exactly the count")
 	r.assumption("hook bodies are user code: they are assumed to return and not to modify the slices they are handed")
 }
 
